@@ -1648,10 +1648,8 @@ impl Fsm {
                 self.tracer.enter_method("externalQueue.dequeue");
                 loop {
                     let externalEventTmp = externalQueue_receiver.lock().unwrap().recv().unwrap();
-                    if externalEventTmp.name.starts_with(EVENT_DONE_INVOKE_PREFIX) {
-                        externalEvent = externalEventTmp;
-                        break;
-                    }
+                    // done.invoke.<id> carries the invoke id of the finished child: it is subject to the same
+                    // filter as every other event of a child (ignored once the invocation was cancelled).
                     if let Some(invoke_id) = &externalEventTmp.invoke_id {
                         if caller_invoke_id.ne(invoke_id) {
                             // W3C says:
